@@ -16,7 +16,12 @@ RULE = ("pair sources = pair.From, the join-argument leaf and FromSeq(x -> From(
         "6 nested-expression functions) over every source and Plus of any two sources (level 1); every unary operator over every level-1 "
         "tree, Plus(level 1, source) both ways and a seeded sample of Plus(level 1, level 1) (level 2); ToSeq with 3 coded and 6 nested "
         "functions over every level <= 1 tree and a sample of level 2; FromSeq with 3 coded and 6 nested functions over a seeded quarter "
-        "(thorough: all) of those ToSeq trees; seeded random trees mixing both sorts to depth 3..6 (thorough: ..7; random trees with more than 1500 result elements or 4000 constructor/join-function calls are skipped). Each tree is built "
+        "(thorough: all) of those ToSeq trees; Join / FromSeq / ToSeq whose function is CONDITIONAL - nil for some outer elements (12 guards "
+        "over 3 outer sequences: nil first, between, several in a row, at the end, alternating, all) and otherwise an early-stopping "
+        "expression of the argument (TakeWhile/DropWhile/Filter with 6 non-monotone predicates on key/value - parity, mod 3, membership "
+        "- over 5 pair sequences where the predicate fails in the middle and holds again later, 60 compositions of them, ToSeq of "
+        "them): all 5400 under Join, a seeded third (thorough: all) under FromSeq and ToSeq, a sample inside a further operator, and "
+        "seeded random ones; seeded random trees mixing both sorts to depth 3..6 (thorough: ..7; random trees with more than 1500 result elements or 4000 constructor/join-function calls are skipped). Each tree is built "
         "from the real constructors and drained with the documented loop reading Key() and Value() at every position, or consumed by "
         "pair.ForEach / seq.ForEach with a callback failing at call 0/1/2/never or on a predicate over (key, value). Keys differ from "
         "values (k = 1000 + v at the sources). A case is distinct by (tree, consumption mode), non-trivial when the required list is non-empty")
@@ -116,6 +121,10 @@ def ecode(t):
         return "(SToSeq %s %s)" % (TS[t["j"]], ecode(t["s"]))
     if o == "stoseqe":
         return "(SToSeqE %s %s)" % (ecode(t["b"]), ecode(t["s"]))
+    if o == "pwhen":
+        return "(PWhen %s %s)" % (ppcode(t["p"]), ecode(t["s"]))
+    if o == "swhen":
+        return "(SWhen %s %s)" % (ppcode(t["p"]), ecode(t["s"]))
     raise ValueError(o)
 
 
@@ -204,6 +213,8 @@ def pexpr(t):
         return "pair.ToSeq(%s, %s)" % (pexpr(t["s"]), TST[t["j"]])
     if o == "stoseqe":
         return "pair.ToSeq(%s, (a,b)->%s)" % (pexpr(t["s"]), pexpr(t["b"]))
+    if o in ("pwhen", "swhen"):
+        return "[%s ? %s : nil]" % (pppred(t["p"]).replace("k", "a").replace("v", "b"), pexpr(t["s"]))
     raise ValueError(o)
 
 
@@ -258,6 +269,8 @@ def den(t, a=0, b=0):
         return [b]
     if o == "sshift":
         return [b + y for y in t.get("xs", [])]
+    if o in ("pwhen", "swhen"):
+        return den(t["s"], a, b) if ipp(t["p"], a, b) else []
     l = den(t["s"], a, b)
     if o == "ptakew":
         r = []
